@@ -55,11 +55,12 @@ fn main() {
     {
         let (rs, rv) = checks::medium::real_hasher_runs(&["cuckoo"]);
         run.ev.set("real_hasher_runs", serde_json::json!(rs.ops));
-        let any = !rv.is_empty();
+        // only violations of the property this check decides count here (others are tallied, not reported)
+        let before = run.n_violations();
         for v in rv {
             run.violation(v);
         }
-        if any {
+        if run.n_violations() > before {
             run.ev.set("stopped_after_real_hasher_runs", serde_json::json!(true));
             run.finish();
         }
